@@ -373,6 +373,8 @@ func runC03(c *Ctx) {
 	checkHashedBucketKeys(c, "C03-R5")
 	checkDerivationPathLiterals(c, "C03-R4")
 	checkCacheHitReturnsCopy(c, "C03-R2")
+	checkClearTextAccessorsReturnCopies(c, "C03-R2")
+	checkPendingQueueOnlyDrainedByUnlock(c, "C03-R3")
 	// ---------- R6 ----------
 	for _, spec := range [][2]string{{"managedAddress", "privKeyCT"}, {"baseScriptAddress", "scriptClearText"}} {
 		fn := p.Func("waddrmgr", spec[0], "lock")
@@ -419,6 +421,7 @@ func runC03(c *Ctx) {
 	checkRowRewrites(c, "C03-R7")
 	checkLoaderCopies(c, "C03-R4")
 	checkIssuerAddrType(c, "C03-R5")
+	checkAddrTypeFollowsBranch(c, "C03-R5")
 }
 
 func isExtractOf(v ssa.Value, call *ssa.Call, idx int) bool {
@@ -450,6 +453,16 @@ func checkAddrTypeCoverage(c *Ctx) {
 				continue
 			}
 			if cst, ok := bo.Y.(*ssa.Const); ok {
+				if n, ok := cst.Type().(*types.Named); ok && n.Obj().Name() == "AddressType" {
+					handled[strings.TrimPrefix(valueDesc(cst), "waddrmgr.")] = true
+				}
+			}
+		}
+	}
+	// ... or an entry in a literal table keyed by the address type that the constructor looks up
+	for _, tl := range p.tableLookupsIn(ctor) {
+		for _, e := range tl.Entries {
+			if cst, ok := e.Key.(*ssa.Const); ok {
 				if n, ok := cst.Type().(*types.Named); ok && n.Obj().Name() == "AddressType" {
 					handled[strings.TrimPrefix(valueDesc(cst), "waddrmgr.")] = true
 				}
